@@ -263,20 +263,7 @@ pub fn compare(ex: &Expect, st: &ConfigState, t: &mut Tally) {
                 }
             }
             match &l.hsts {
-                Some(h) => {
-                    let before = t.findings.len();
-                    hsts_check(t, "https_listener", &id, &got["hsts"], h);
-                    if l.hsts_syntax == Syntax::DocumentedBareHsts {
-                        t.obs("listener_hsts_written_as_documented_bare_table", 1);
-                        // a distinct class: the syntax printed in doc/configure.md
-                        for f in t.findings.iter_mut().skip(before) {
-                            if f.sig == "state/https_listener_hsts_dropped" {
-                                f.sig = "state/https_listener_hsts_dropped/documented_bare_hsts_table".to_owned();
-                                f.what.push_str(" (the block was written exactly as doc/configure.md shows it: a bare `[hsts]` header after the `[[listeners]]` entry)");
-                            }
-                        }
-                    }
-                }
+                Some(h) => hsts_check(t, "https_listener", &id, &got["hsts"], h),
                 None => {
                     // "Omit the block and no listener-default HSTS is set"
                     t.field(obj, "hsts", &got["hsts"], None, Some(Value::Null), true, &id);
